@@ -153,6 +153,7 @@ Qed.
 Lemma rule9_ok : quiet_rule_ok 9.
 Proof.
   intros c s1 s W D Q Ls. fold (St c s1) in Q. fold (Tr c s1). unfold d_check_quiet. unfold a_returned, a_started.
+  destruct (o_returned (Tr c s1) (TClose s) && negb (dm_wild (dcfg_of_cfg c) s) && Nat.ltb (o_nread (Tr c s1) s) (o_nreq (Tr c s1) s)); [discriminate|].
   destruct (o_returned (Tr c s1) (TSub s)) eqn:R; [|cbn; discriminate]. destruct (o_started (Tr c s1) (TClose s)) eqn:Hc; [cbn; discriminate|]. cbn [negb orb].
   assert (Ex : exists cs, nth_error (subs (St c s1)) s = Some cs).
   { destruct (nth_error (subs (St c s1)) s) as [cs|] eqn:Ec; [eauto|]. apply nth_error_None in Ec.
